@@ -419,6 +419,7 @@ def run(ctx):
     # ------------------------------------------------------------- R20.8
     _exact_match(ctx)
     _independent_tables(ctx)
+    neutral_answers_of_the_placeholder(ctx)
 
     # ------------------------------------------------------------- R20.7 = R13.2
     ctx.rule("R20.7", "by-name lookups are exact only if the name tables are rebuilt after every load: merge_from resets the freshness word after its last mutation, lookup() refreshes exactly the stale table (= R13.2)")
@@ -700,3 +701,83 @@ def _independent_tables(ctx):
         f = db.fn(name)
         ctx.ob("R20.9", "%s|reads-fptr-table" % name, ok, f.loc(x), "%s reads %s%s" % (name, x["n"].split("::")[-1], "" if ok else ": a lookup by name or index must not depend on the optional pointer table"))
 
+
+
+def neutral_answers_of_the_placeholder(ctx):
+    """R20.10: for an index that names nothing, get_<kind>(index) hands out a default-constructed record and the interface
+    function returns whatever the record's accessor computes from it.  "A defined neutral value (0, false)" therefore
+    means: every parameterless int/bool accessor, evaluated on the constructor's initial field values, yields 0.
+    (F-C20c: _array_size starts at 1, get_array_size() returned it unmasked.)"""
+    from .C18 import _evw
+    db = ctx.db
+    ctx.rule("R20.10", "every parameterless accessor of a database record class that returns an integer or bool evaluates to 0 on the field values the default constructor sets")
+    n = 0
+    skipped = []
+    for rec in ["InterrogateComponent", "InterrogateType", "InterrogateFunction", "InterrogateFunctionWrapper",
+                "InterrogateElement", "InterrogateManifest", "InterrogateMakeSeq"]:
+        short = rec.split("::")[-1]
+        ctors = [f for f in db.fns(rec + "::" + short) if "InterrogateModuleDef" in f.sig or f.sig.startswith("void ()")]
+        env = {}
+        # base class first
+        chain = [rec] if rec == "InterrogateComponent" else ["InterrogateComponent", rec]
+        for cls in chain:
+            for c in [f for f in db.fns(cls + "::" + cls) if "InterrogateModuleDef" in f.sig or f.sig.startswith("void ()")][:1]:
+                for ini in c.d.get("inits", []):
+                    if ini.get("m") and ini.get("written") and const_int(ini.get("e")) is not None:
+                        env[ini["m"].split("::")[-1]] = const_int(ini["e"])
+                for x in c.walk():
+                    t = assigned_target(x)
+                    if t and field_of(t[0]) and const_int(t[1]) is not None:
+                        b = base_of(t[0])
+                        if b is None or b.get("k") == "this":
+                            env[field_of(t[0]).split("::")[-1]] = const_int(t[1])
+        if not ctors:
+            continue
+        methods = {}
+        for m in db.methods_of(rec):
+            if not m.params and m.sig.rstrip().endswith("const"):
+                methods.setdefault(m.name, m)
+
+        def ev_method(m, depth=0):
+            if depth > 4:
+                raise ValueError("depth")
+            body = m.d.get("body") or {}
+            stmts = body.get("s", []) if body.get("k") == "block" else [body]
+            if len(stmts) != 1 or stmts[0].get("k") != "ret":
+                raise ValueError("not a single return")
+            return ev_expr(stmts[0]["e"], depth)
+
+        def ev_expr(e, depth):
+            # substitute calls of sibling accessors by their value, then evaluate
+            e2 = strip_casts(peel(e))
+            if e2 is not None and e2.get("k") == "call" and not e2.get("a") and e2.get("f") in methods and (e2.get("this") is None or (peel(e2.get("this")) or {}).get("k") == "this"):
+                return ev_method(methods[e2["f"]], depth + 1)
+            if e2 is not None and e2.get("k") == "bin":
+                a, b = ev_expr(e2["x"], depth), ev_expr(e2["y"], depth)
+                op = e2["op"]
+                table = {"&": a & b, "|": a | b, "!=": int(a != b), "==": int(a == b), "&&": int(bool(a) and bool(b)), "||": int(bool(a) or bool(b)),
+                         "+": a + b, "-": a - b, "<": int(a < b), ">": int(a > b), ">=": int(a >= b), "<=": int(a <= b)}
+                if op not in table:
+                    raise ValueError("operator " + op)
+                return table[op]
+            if e2 is not None and e2.get("k") == "cond":
+                return ev_expr(e2["x"], depth) if ev_expr(e2["c"], depth) else ev_expr(e2["y"], depth)
+            if e2 is not None and e2.get("k") == "un" and e2.get("op") == "!":
+                return int(not ev_expr(e2["e"], depth))
+            if e2 is not None and e2.get("k") == "paren":
+                return ev_expr(e2["e"], depth)
+            return _evw(db, e2, env)
+        for name, m in sorted(methods.items()):
+            rt = m.sig.split("(")[0].strip()
+            if rt not in ("int", "bool") and not rt.endswith("Index"):
+                continue
+            try:
+                v = ev_method(m)
+            except (ValueError, KeyError) as ex:
+                skipped.append("%s (%s)" % (name, ex))
+                continue
+            n += 1
+            ctx.ob("R20.10", "%s|neutral-on-placeholder" % name, v == 0, m.loc(), "%s() on a default-constructed record = %s" % (name.split("::")[-1], v))
+    if skipped:
+        ctx.info("R20.10 not judged (body is not a single evaluable return): " + "; ".join(skipped[:12]) + (" ..." if len(skipped) > 12 else ""))
+    ctx.floor("R20.10", "parameterless integer/bool accessors evaluated", n, 40)
